@@ -7,6 +7,7 @@
    Leaves are storage ids: the batched view wraps the SAME tensor objects, so it reads the current content of the storage. *)
 From Coq Require Import ZArith List Bool Lia.
 Import ListNotations.
+From TD Require Import Model.C19_Vmap Model.C19_Content.
 Open Scope nat_scope.
 
 Definition vkey := (Z * nat)%type.                       (* (in_dim, vmap_level) *)
@@ -114,3 +115,22 @@ Fixpoint mrun (c : mcfg) (n : node) (ops : list mop) : list (list (nat * Z) * li
 (* every memoised view is the view a fresh computation would give, and an unlocked tensordict memoises nothing *)
 Definition cache_inv (n : node) : Prop :=
   (forall k v, In (k, v) (vcache n) -> v = fresh n (fst k) (snd k)) /\ (locked n = false -> vcache n = []).
+
+(* ---------------- dim names of a SHARED batched view under un-batching ----------------
+   A batched view is un-batched more than once when the function returns it several times (tuple outputs with their own
+   out_dims), when it is the memoised view of a locked tensordict (one un-batching per vmap call), and the clone(False) handed
+   over for an in_dim = None tensordict shares its names LIST with the caller's tensordict.
+   TensorDict._maybe_remove_batch_dim (_td.py): names = self._maybe_names(); if names: new_names = list(names);
+   new_names.insert(out_dim, None) — the insert goes into a COPY ([copy_names] = true, the tree).  copy_names = false is the
+   seeded variant C19-3 (insert into the view's own list). *)
+Definition unbatch_names (copy_names : bool) (vn : names) (o : Z) : names * names :=
+  let r := names_remove vn o in
+  (r, if copy_names then vn else match r with Some _ => r | None => vn end).
+
+(* un-batch the same view once per out_dim: the names of every result, and the names the view is left with *)
+Fixpoint unbatch_seq (copy_names : bool) (vn : names) (os : list Z) : list names * names :=
+  match os with
+  | [] => ([], vn)
+  | o :: r => let '(res, vn1) := unbatch_names copy_names vn o in
+              let '(rs, vn2) := unbatch_seq copy_names vn1 r in (res :: rs, vn2)
+  end.
